@@ -9,7 +9,7 @@ use serde_json::{json, Value};
 use std::os::unix::io::RawFd;
 use virtio_queue::desc::{split::Descriptor as SplitDescriptor, RawDescriptor};
 use virtio_queue::mock::MockSplitQueue;
-use vm_memory::bitmap::{AtomicBitmap, Bitmap};
+use vm_memory::bitmap::{AtomicBitmap, Bitmap, MS};
 use vm_memory::{Bytes, GuestAddress, GuestMemory, GuestMemoryRegion};
 
 pub type Mem = vm_memory::GuestMemoryMmap<AtomicBitmap>;
@@ -105,6 +105,25 @@ pub fn run_fusedev_hook<F: FileSystem + Sync>(
     pair: &SeqPair,
     hook: Option<&dyn MetricsHook>,
 ) -> Outcome {
+    let (ret, canary_ok) = run_fusedev_with(req, cap, pair.tx, |reader, writer| match server.handle_message(reader, writer, vu, hook) {
+        Ok(n) => format!("ok:{n}"),
+        Err(e) => format!("err:{}", err_variant(&e)),
+    });
+    Outcome {
+        ret,
+        msgs: pair.drain(),
+        canary_ok,
+        tail_untouched: true,
+        written: vec![],
+        dirty_reply: vec![],
+        dirty_req: vec![],
+        wsegs: vec![],
+    }
+}
+
+/// One contiguous request buffer and one contiguous reply buffer of `cap` bytes over `fd`, canaries around
+/// the reply buffer; `call` receives the Reader/Writer pair. Returns (result string or "panic", canary_ok).
+pub fn run_fusedev_with(req: &[u8], cap: usize, fd: RawFd, call: impl FnOnce(Reader<'_, ()>, Writer<'_, ()>) -> String) -> (String, bool) {
     const PAD: usize = 256;
     let mut rbuf = req.to_vec();
     let mut wall = vec![CANARY; cap + 2 * PAD];
@@ -119,29 +138,20 @@ pub fn run_fusedev_hook<F: FileSystem + Sync>(
                 Ok(r) => r,
                 Err(e) => return format!("err:reader:{}", err_variant(&e)),
             };
-            let writer = match FuseDevWriter::<()>::new(pair.tx, wbuf) {
+            let writer = match FuseDevWriter::<()>::new(fd, wbuf) {
                 Ok(w) => w,
                 Err(e) => return format!("err:writer:{}", err_variant(&e)),
             };
-            match server.handle_message(reader, Writer::FuseDev(writer), vu, hook) {
-                Ok(n) => format!("ok:{n}"),
-                Err(e) => format!("err:{}", err_variant(&e)),
-            }
+            call(reader, Writer::FuseDev(writer))
         }));
         res.unwrap_or_else(|_| "panic".to_string())
     };
-    let msgs = pair.drain();
     let canary_ok = wall[..PAD].iter().all(|b| *b == CANARY) && wall[PAD + cap..].iter().all(|b| *b == CANARY);
-    Outcome {
-        ret,
-        msgs,
-        canary_ok,
-        tail_untouched: true,
-        written: vec![],
-        dirty_reply: vec![],
-        dirty_req: vec![],
-        wsegs: vec![],
-    }
+    (ret, canary_ok)
+}
+
+pub fn err_name<E: std::fmt::Debug>(e: &E) -> String {
+    err_variant(e)
 }
 
 pub const QUEUE_BASE: u64 = 0;
@@ -171,6 +181,22 @@ pub fn run_virtio<F: FileSystem + Sync>(
     woff: u64,
     gap: u64,
     vu: Option<&mut dyn FsCacheReqHandler>,
+) -> Outcome {
+    run_virtio_with(req, rlens, wlens, roff, woff, gap, |reader, writer| match server.handle_message(reader, writer, vu, None) {
+        Ok(n) => format!("ok:{n}"),
+        Err(e) => format!("err:{}", err_variant(&e)),
+    })
+}
+
+/// Same layout, `call` receives the Reader/Writer pair built over the descriptor chain.
+pub fn run_virtio_with(
+    req: &[u8],
+    rlens: &[usize],
+    wlens: &[usize],
+    roff: u64,
+    woff: u64,
+    gap: u64,
+    call: impl for<'a> FnOnce(Reader<'a, MS<'a, Mem>>, Writer<'a, MS<'a, Mem>>) -> String,
 ) -> Outcome {
     let rsegs = layout(REQ_BASE, roff, rlens, gap);
     let wsegs = layout(REPLY_BASE, woff, wlens, gap);
@@ -232,10 +258,7 @@ pub fn run_virtio<F: FileSystem + Sync>(
                 Ok(w) => w,
                 Err(e) => return format!("err:writer:{}", err_variant(&e)),
             };
-            match server.handle_message(reader, Writer::VirtioFs(writer), vu, None) {
-                Ok(n) => format!("ok:{n}"),
-                Err(e) => format!("err:{}", err_variant(&e)),
-            }
+            call(reader, Writer::VirtioFs(writer))
         }));
         res.unwrap_or_else(|_| "panic".to_string())
     };
